@@ -51,6 +51,8 @@ struct Exec {
     /// message-ids are the library's business: the scripts, the model and the recorded events number the
     /// requests by the rpc() call that produced them (1, 2, ...), and these maps translate to and from the
     /// message-id that call put on the wire
+    /// events produced by a command besides the one it returns (a command that stands for several)
+    more: Vec<Value>,
     real_of: BTreeMap<u64, u64>,
     abs_of: BTreeMap<u64, u64>,
     /// message-ids guessed for calls that had not been made yet (a reply pushed ahead of its request)
@@ -184,6 +186,7 @@ impl Exec {
             answered: Vec::new(),
             closed: false,
             cancel,
+            more: Vec::new(),
             real_of: BTreeMap::new(),
             abs_of: BTreeMap::new(),
             guessed: BTreeMap::new(),
@@ -346,6 +349,33 @@ impl Exec {
                     ev["skipped"] = json!(true);
                 }
             }
+            "answerall" => {
+                // the server answers every request it has seen and not answered yet, in the given order
+                let mut ids: Vec<u64> = self.sent_ids().into_iter().filter(|i| !self.answered.contains(i)).collect();
+                match c["order"].as_str().unwrap_or("fifo") {
+                    "lifo" => ids.reverse(),
+                    "odd-even" => {
+                        let (a, b): (Vec<u64>, Vec<u64>) = ids.iter().partition(|i| **i % 2 == 1);
+                        ids = a.into_iter().chain(b).collect();
+                    }
+                    _ => {}
+                }
+                for i in &ids {
+                    self.answered.push(*i);
+                    let tag = self.push_reply(*i);
+                    // each reply is an event of its own for the contract monitor
+                    self.more.push(json!({"ev": "reply", "id": i, "tag": tag, "sent": [], "delivered": self.ctl.delivered() - 1,
+                                          "rwait": self.ctl.recv_waiting()}));
+                }
+                ev["n"] = json!(ids.len());
+            }
+            "stuckcheck" => {
+                // every request on the wire has been answered and the send side is free: a call of rpc() that is still
+                // pending now waits for something only the caller's OTHER futures could give it
+                ev["caller_busy"] = json!(self.caller_busy);
+                ev["calls"] = json!(self.calls);
+                ev["on_wire"] = json!(self.sent_ids().len());
+            }
             "mode" => {
                 let m = c["m"].as_str().unwrap_or("free");
                 ev["m"] = json!(m);
@@ -460,6 +490,7 @@ fn run_case(case: &str, cmds: &[Value], out: &mut dyn Write) {
             } else {
                 let e = ex.exec(c);
                 evs.push(e);
+                evs.append(&mut ex.more);
             }
         }
         if ex.misguessed {
